@@ -105,6 +105,42 @@ def observe_stream(defn, pkt, parse_bad):
     return ("flagged" if w else "clean", items_of(p), p.raw_data.pos, len(w))
 
 
+def judge_packet(t: Tally, doc, defn, pkt, case, name):
+    """One packet through the generator under both parse_bad_pkts settings, against the reference bit accounting."""
+    want = decode_packet(doc, pkt)
+    is_clean = want.kind == "parsed" and want.consumed == 8 * len(pkt)
+    klass = ("clean" if is_clean else "longer" if want.kind == "parsed" else
+             "overrun" if want.overrun else want.kind + ":" + want.why[:24])
+    for pb in (True, False):
+        obs = observe_stream(defn, pkt, pb)
+        t.evals += 1
+        t.outcomes[f"{klass} -> {obs[0]}"] += 1
+        why = None
+        if want.kind == "unspecified":
+            continue
+        if is_clean:
+            if obs[0] != "clean":
+                why = f"well-formed exactly-consumed packet was {obs[0]} ({obs[1] if obs[0] == 'raised' else ''} {obs[2] if obs[0] == 'raised' else ''})"
+            else:
+                why = compare_items(want.items, obs[1])
+                if why is None and obs[2] != 8 * len(pkt):
+                    why = f"cursor {obs[2]} != {8 * len(pkt)}"
+        else:
+            allowed = ("flagged", "raised") if pb else ("withheld", "raised")
+            if want.kind == "unrecognized":
+                allowed = ("withheld", "raised")  # a packet the document does not define is skipped, whatever parse_bad_pkts says
+            if obs[0] not in allowed:
+                why = f"packet that does not consume exactly its bits ({klass}) was {obs[0]} with parse_bad_pkts={pb}"
+            elif obs[0] == "flagged" and want.kind == "parsed":
+                why = compare_items(want.items, obs[1])
+                if why is None and obs[2] != want.consumed:
+                    why = f"cursor {obs[2]} != sum of decoded widths {want.consumed}"
+        if why:
+            t.violation({"kind": "accounting", "class": klass.split(":")[0], "observed": obs[0], "parse_bad_pkts": pb,
+                         "layout": name if not is_clean else "*"},
+                        {**case, "packet": pkt.hex(), "parse_bad_pkts": pb}, expected=klass, observed=obs[:3] if obs[0] != "clean" else obs[0], note=why)
+
+
 def _task(task):
     t = Tally()
     via = task["via"]
@@ -133,37 +169,7 @@ def _task(task):
                         if len(bits) < 8 * n:
                             bits = bits + "0" * (8 * n - len(bits))
                         pkt = docs.packet_for(i, bits)
-                        want = decode_packet(doc, pkt)
-                        is_clean = want.kind == "parsed" and want.consumed == 8 * len(pkt)
-                        klass = ("clean" if is_clean else "longer" if want.kind == "parsed" else
-                                 "overrun" if want.overrun else want.kind + ":" + want.why[:24])
-                        for pb in (True, False):
-                            obs = observe_stream(defn, pkt, pb)
-                            t.evals += 1
-                            t.outcomes[f"{klass} -> {obs[0]}"] += 1
-                            why = None
-                            if want.kind == "unspecified":
-                                continue
-                            if is_clean:
-                                if obs[0] != "clean":
-                                    why = f"well-formed exactly-consumed packet was {obs[0]} ({obs[1] if obs[0] == 'raised' else ''} {obs[2] if obs[0] == 'raised' else ''})"
-                                else:
-                                    why = compare_items(want.items, obs[1])
-                                    if why is None and obs[2] != 8 * len(pkt):
-                                        why = f"cursor {obs[2]} != {8 * len(pkt)}"
-                            else:
-                                allowed = ("flagged", "raised") if pb else ("withheld", "raised")
-                                if obs[0] not in allowed:
-                                    why = f"packet that does not consume exactly its bits ({klass}) was {obs[0]} with parse_bad_pkts={pb}"
-                                elif obs[0] == "flagged" and want.kind == "parsed":
-                                    why = compare_items(want.items, obs[1])
-                                    if why is None and obs[2] != want.consumed:
-                                        why = f"cursor {obs[2]} != sum of decoded widths {want.consumed}"
-                            if why:
-                                t.violation({"kind": "accounting", "class": klass.split(":")[0], "observed": obs[0], "parse_bad_pkts": pb,
-                                             "layout": name if not is_clean else "*"},
-                                            {"layout": i, "layout_name": name, "LEN": ln, "n": n, "packet": pkt.hex(), "parse_bad_pkts": pb,
-                                             "via": via, "tier": task.get("tier", "quick")}, expected=klass, observed=obs[:3] if obs[0] != "clean" else obs[0], note=why)
+                        judge_packet(t, doc, defn, pkt, {"layout": i, "layout_name": name, "LEN": ln, "n": n, "via": via, "tier": task.get("tier", "quick")}, name)
                 t.nontrivial += 1
             # re-parse: a raw packet object from the framer, wrapped and parsed twice
             from space_packet_parser.packets import CCSDSPacket, ccsds_generator
@@ -265,16 +271,75 @@ def _task(task):
     return t
 
 
+def chain_docs():
+    """Layouts whose fields are spread over several containers: the base container holds more than the CCSDS header, inheritance is two
+    levels deep, a nested container sits between fields.  A packet may end exactly on a container boundary."""
+    from mc.spec import Cmp, Container, Doc, header_entries, header_params, header_ptypes
+    u8, u16, u4 = PType("C8_T", "Integer", IntEnc(8)), PType("C16_T", "Integer", IntEnc(16)), PType("C4_T", "Integer", IntEnc(4))
+    pts = header_ptypes() + (u8, u16, u4)
+
+    def P(*names):
+        return tuple(Param(n, {"8": "C8_T", "6": "C16_T", "4": "C4_T"}[n[-1]]) for n in names)
+    out = []
+    # 1: root = header + one byte of secondary header; the child (by APID) adds fields
+    out.append(("root(header,SH8)>child(A8,B16)", Doc(pts, header_params() + P("SH8", "A8", "B16"), (
+        Container("CCSDSPacket", header_entries() + (("p", "SH8"),), abstract=True),
+        Container("CH", (("p", "A8"), ("p", "B16")), base="CCSDSPacket", criteria=(Cmp("PKT_APID", "==", "1"),))))))
+    # 2: three levels, the middle one selected by APID, the leaf by a decoded value
+    out.append(("root(header)>mid(M8)>leaf(L16,T4,U4)", Doc(pts, header_params() + P("M8", "L16", "T4", "U4"), (
+        Container("CCSDSPacket", header_entries(), abstract=True),
+        Container("MID", (("p", "M8"),), base="CCSDSPacket", criteria=(Cmp("PKT_APID", "==", "1"),), abstract=True),
+        Container("LEAF", (("p", "L16"), ("p", "T4"), ("p", "U4")), base="MID", criteria=(Cmp("M8", ">=", "0"),))))))
+    # 3: concrete middle level (a packet that ends after it is a complete MID packet only if no leaf matches; here a leaf always matches)
+    out.append(("root(header,SH8)>mid(M8) concrete>leaf(L8)", Doc(pts, header_params() + P("SH8", "M8", "L8"), (
+        Container("CCSDSPacket", header_entries() + (("p", "SH8"),), abstract=True),
+        Container("MID", (("p", "M8"),), base="CCSDSPacket", criteria=(Cmp("PKT_APID", "==", "1"),)),
+        Container("LEAF", (("p", "L8"),), base="MID", criteria=(Cmp("SH8", ">=", "0"),))))))
+    # 4: a nested container between two fields of the child
+    out.append(("root(header)>child(A8,[N8,O8],B8)", Doc(pts, header_params() + P("A8", "N8", "O8", "B8"), (
+        Container("CCSDSPacket", header_entries(), abstract=True),
+        Container("CH", (("p", "A8"), ("c", "NESTC"), ("p", "B8")), base="CCSDSPacket", criteria=(Cmp("PKT_APID", "==", "1"),)),
+        Container("NESTC", (("p", "N8"), ("p", "O8")))))))
+    # 5: the leaf is chosen by a value; for other values the concrete middle level is the whole packet
+    out.append(("root(header)>mid(M8) concrete>leaf(L8) if M8==1", Doc(pts, header_params() + P("M8", "L8"), (
+        Container("CCSDSPacket", header_entries(), abstract=True),
+        Container("MID", (("p", "M8"),), base="CCSDSPacket", criteria=(Cmp("PKT_APID", "==", "1"),)),
+        Container("LEAF", (("p", "L8"),), base="MID", criteria=(Cmp("M8", "==", "1"),))))))
+    return out
+
+
+def _task_chains(task):
+    t = Tally()
+    for ci, (name, doc) in enumerate(chain_docs()):
+        try:
+            with case_alarm(300):
+                defn = load_doc(doc) if task["via"] == "xml" else build_objects(doc)
+                for n in range(1, 9):
+                    for fill in ("00000000", "11111111", "00000001", "01000001"):
+                        for first in ("", "00000001"):
+                            bits = (first + fill * n)[:8 * n]
+                            pkt = docs.packet_for(1, bits)
+                            judge_packet(t, doc, defn, pkt, {"chain": ci, "layout_name": name, "n": n, "via": task["via"]}, name)
+                    t.nontrivial += 1
+            t.programs += 1
+        except BaseException as e:  # noqa: BLE001
+            t.violation({"kind": "check-aborted", "exc": type(e).__name__}, {"chain": ci, "layout_name": name}, observed=repr(e)[:300])
+    return t
+
+
 def run(ctx):
     n = len(layouts(ctx.tier))
     tasks = [{"layouts": [i], "via": "xml", "tier": ctx.tier} for i in range(n)] + [{"layouts": list(range(n)), "via": "objects", "tier": ctx.tier}]
     tally = fan_out(_task, tasks, jobs=ctx.jobs, seed=ctx.seed)
+    tally.merge(fan_out(_task_chains, [{"via": "xml"}, {"via": "objects"}], jobs=2, seed=ctx.seed))
     coverage = {
         "programs": tally.programs,
         "exhaustive": True,
         "bound": (f"{n} layouts ({'with the thorough-only alignment/field-kind variants; ' if not ctx.quick else ''}fixed: u8,u16 / u3,u13 / f32 / str16 / bin12,u4 / s64 / u16le,u8; length dependent: LEN+BLOB 8*LEN+{{0,8,-8}}, "
                   "rest-of-packet 8*PKT_LEN-{8,16,64}+TAIL, dynamic string, unaligned variants, float after dynamic blob, calibrated length, bit-granular length) "
                   f"x LEN 0..{5 if ctx.quick else 9} x every data length 1..required+{3 if ctx.quick else 6} bytes x {3 if ctx.quick else 4} fills x parse_bad_pkts {{T,F}}, from XML and from objects; "
+                  "5 multi-container layouts (base container with a field after the header, two-level inheritance with abstract and concrete middle levels, a nested "
+                  "container between fields, a value-selected leaf) x every data length 1..8 bytes (so that packets end on every container boundary) x 4 fills x 2 leading bytes; "
                   "per layout every stream of 2..3 packets over {exactly consumed, 2 bytes longer, 1 byte shorter} with warnings attributed per next() call"),
         "rule": "one evaluation = one single-packet generator run; distinct non-trivial = distinct (layout, LEN) pairs swept over all lengths",
     }
@@ -284,6 +349,10 @@ def run(ctx):
 
 
 def replay(case):
+    if "chain" in case:
+        t = _task_chains({"via": case.get("via", "xml")})
+        return next((v for v in t.violations if v["case"].get("chain") == case["chain"] and v["case"]["packet"] == case["packet"]
+                     and v["case"]["parse_bad_pkts"] == case["parse_bad_pkts"]), None)
     t = _task({"layouts": [case["layout"]], "via": case.get("via", "xml"), "tier": case.get("tier", "quick")})
     if case.get("streamcase"):
         return next((v for v in t.violations if v["case"].get("streamcase") and v["case"]["packet"] == case["packet"] and v["case"]["parse_bad_pkts"] == case["parse_bad_pkts"]), None)
@@ -298,6 +367,8 @@ def replay(case):
 def repro_py(case):
     from mc.spec import render_xml
     doc = docs.selector_doc([(pts, prs, ents) for _, pts, prs, ents, _, _ in layouts(case.get("tier", "quick"))], root_abstract=True)
+    if "chain" in case:
+        doc = chain_docs()[case["chain"]][1]
     return ("import io, warnings\nfrom space_packet_parser.xtce.definitions import XtcePacketDefinition\n"
             f"xml = {render_xml(doc)!r}\n"
             f"d = XtcePacketDefinition.from_xtce(io.BytesIO(xml))\nwith warnings.catch_warnings(record=True) as w:\n"
